@@ -82,9 +82,22 @@ POOL = [1.0, 2.0, 3.0, -1.0, -2.0, 4.0, 0.5, -0.5, 1.5, 5.0, -3.0, 0.25, 6.0, -4
 
 
 def values_for(d, salt):
-    """deterministic value table {key path tuple: float} of an operand"""
+    """deterministic value table {key path tuple: float} of an operand; salt >= 100 selects a table WITH zeros
+    (100: all zero, 101/105: first row / first entries zero, 102/107: alternating zeros) — sparse operands"""
     if d[0] == "num":
         return {(): float(d[1])}
+    if salt >= 100:
+        mode = salt % 3 if salt % 100 < 5 else (salt + 1) % 3
+        if not d[1]:
+            return {(): 0.0 if mode == 0 else POOL[salt % len(POOL)]}
+        out, c = {}, 0
+        for i, k in enumerate(d[1]):
+            cols = d[2] or [None]
+            for j, l in enumerate(cols):
+                z = mode == 0 or (mode == 1 and i == 0) or (mode == 2 and (i + j) % 2 == 0)
+                out[(kstr(k),) if l is None else (kstr(k), kstr(l))] = 0.0 if z else POOL[(c + salt) % len(POOL)]
+                c += 1
+        return out
     if not d[1]:
         return {(): POOL[(3 + salt) % len(POOL)]}
     out, c = {}, salt
@@ -98,12 +111,12 @@ def values_for(d, salt):
     return out
 
 
-def build(model, name, d, vals):
+def build(model, name, d, vals, kind="converter"):
     """create the operand on the real model; numbers stay Python numbers"""
     if d[0] == "num":
         x = float(d[1])
         return int(d[1]) if "." not in d[1] and "e" not in d[1] else x
-    e = model.converter(name)
+    e = getattr(model, kind)(name)
     if not d[1]:
         e.equation = vals[()]
     elif d[3]:
@@ -176,8 +189,9 @@ def run_real(form, da, db, salt=0):
     va, vb = values_for(da, salt), values_for(db, salt + 5) if db is not None else None
     m = new_model()
     try:
-        a = build(m, "A", da, va)
-        b = build(m, "B", db, vb) if db is not None else None
+        kind = "constant" if salt >= 100 else "converter"      # sparse tables are held by constants (literal zeros)
+        a = build(m, "A", da, va, kind)
+        b = build(m, "B", db, vb, kind) if db is not None else None
         R = m.converter("R")
         R.equation = apply_form(form, a, b)
         line, vals = observe(R)
@@ -540,6 +554,23 @@ def run(chk):
             if d is not None:
                 note_violation(f"wrong-value:{'nmul' if req[-1].startswith('expand nmul') else form}", size,
                                f"{txt}: element {d[0]} evaluates to {d[1]}, numpy gives {d[2]}", dict(rep, index=d[0], observed=d[1], expected=d[2]))
+            # sparse operands: the same case with zero entries (all-zero, zero row, alternating) — values only
+            if form in ("dot", "mul", "add", "sub") and nontriv:
+                for zs in (100, 101, 102):
+                    try:
+                        zline, zvals, zexc, zva, zvb = run_real(form, da, db, zs)
+                    except pyfrag.Unsupported:
+                        continue
+                    dist["zero_tables"] = dist.get("zero_tables", 0) + 1
+                    zexp = spec(form, da, db, zva, zvb)
+                    if zexp is None or zline == "none":
+                        if zline != line and (zline == "none") != (line == "none"):
+                            note_violation(f"acceptance-depends-on-values:{form}", size, f"{txt}: accepted with non-zero entries, {'rejected' if zline == 'none' else 'accepted'} with zero entries", dict(rep, salt=zs))
+                        continue
+                    zd = compare_values(zvals, zexp, exact=True)
+                    if zd is not None:
+                        note_violation(f"wrong-value:{form}", size, f"{txt} with zero entries (value table {zs}): element {zd[0]} evaluates to {zd[1]!r}, numpy gives {zd[2]}",
+                                       dict(rep, salt=zs, index=zd[0], observed=repr(zd[1]), expected=zd[2]))
     n_bin = len(req)
     for g, d in agg_cases(K):
         try:
